@@ -117,6 +117,7 @@ package btree
 //@   requires (forall i, j :: 0 <= i && i < j && j < len(tree.Root.Children) ==> tree.Root.Children[i] != tree.Root.Children[j])
 //@   modifies tree.Root
 //@   modifies each x like tree.Root where (exists i :: 0 <= i && i < len(old(tree.Root).Children) && old(tree.Root).Children[i] == x) : x.Parent
+//@   assert before setParent#1: len(left.Children) == middle + 1 && (forall i :: 0 <= i && i < len(right.Children) ==> right.Children[i] == tree.Root.Children[plus(middle + 1, i)])
 //@   assert before setParent#2: (forall i, j :: 0 <= i && i < len(left.Children) && 0 <= j && j < len(right.Children) ==> left.Children[i] != right.Children[j])
 //@   assert after setParent#2: (forall i :: 0 <= i && i < len(left.Children) ==> left.Children[i].Parent == left)
 //@   ensures [C07] new-root: fresh(tree.Root) && tree.Root.Parent == nil && len(tree.Root.Entries) == 1 && len(tree.Root.Children) == 2
